@@ -208,6 +208,7 @@ func VxC15Explain() {
 	rec := NewMemoryRecorder()
 	vxAssert(engine.EvalProgram(pi, &withRec, engine.WithDerivationRecorder(rec)) == nil, "eval-with-recorder-no-error")
 	vxReach("evaluated")
+	vxObserve("facts-after-eval", plain.EstimateFactCount())
 	// recorder neutrality
 	vxAssert(plain.EstimateFactCount() == withRec.EstimateFactCount(), "recorder-does-not-change-the-result")
 	for _, p := range prog.idb {
